@@ -127,7 +127,7 @@ pub fn build(e: &mut Ent, f: &Force) -> (StepCase, Insn, Option<u32>, u32) {
     let avoid: Vec<u32> = target.into_iter().collect();
     let pc = e.code_addr(code.len() as u32, &avoid);
     let bus = e.bus_cfg();
-    (StepCase { code, pc, er, ccr, patches, bus }, insn, target, moved)
+    (StepCase { code, pc, er, ccr, patches, bus, irq: None }, insn, target, moved)
 }
 
 fn classify(case: &StepCase, j: &Judged, stats: &mut Stats, insn: &Insn, target: Option<u32>, moved: u32) {
